@@ -6,6 +6,7 @@ import Galaxy.Lemmas.C10Rec
 import Galaxy.Lemmas.PluginResync
 import Galaxy.Lemmas.PluginBind
 import Galaxy.Lemmas.PluginMain
+import Galaxy.Lemmas.PluginReload
 
 namespace Galaxy.PluginC10
 open Galaxy Galaxy.Plugin
@@ -413,5 +414,120 @@ theorem filter_core (s : State) (ns name : String) (nodes : List String) (ch : C
       · rename_i set _
         have q := filterNodes_quiet set nodes [] (getSubnet s pod ch).1
         exact key.of_quiet q.1 q.2
+
+/-! ### the pod-IP sync pass -/
+
+theorem allocateSpecific_fields (s : State) (key : Key) (ip : IP) (a : Attr) :
+    (allocateSpecific s key ip a).1.plog = s.plog ∧ (allocateSpecific s key ip a).1.pods = s.pods ∧
+    (allocateSpecific s key ip a).1.provOn = s.provOn := by
+  unfold allocateSpecific
+  dsimp only
+  split
+  · exact ⟨rfl, rfl, rfl⟩
+  · have st := stCreate_step s ip (mkRec key a s.clock)
+    have sp := stCreate_plog s ip (mkRec key a s.clock)
+    split
+    · exact ⟨sp, st.frame.pods, st.frame.provOn⟩
+    · exact ⟨sp, st.frame.pods, st.frame.provOn⟩
+
+/-- `AllocateSpecificIP` for a pod incarnation: the invariant core is kept, existing records stay -/
+theorem core_allocateSpecific (s : State) (key : Key) (ip : IP) (a : Attr) (hkp : key.pod ≠ "") (hu : a.uid ≠ 0)
+    (h : Core s) :
+    Core (allocateSpecific s key ip a).1 ∧
+    (∀ j r, Tbl.get s.alloc j = some r → Tbl.get (allocateSpecific s key ip a).1.alloc j = some r) := by
+  have c := allocateSpecific_chg s key ip a h.coh
+  have f := allocateSpecific_fields s key ip a
+  refine ⟨⟨allocateSpecific_coherent s key ip a h.coh, by rw [f.2.2]; exact h.on,
+    J_of_chg h.j c f.1 (fun j ho => (h.j j).unassigned_of_free ho) (fun o hn r hr hz => ?_), by rw [f.1]; exact h.log⟩,
+    fun j r hr => ?_⟩
+  · obtain ⟨r', h1, h2, h3⟩ := hn
+    rw [h1] at hr; cases hr
+    rcases hz with hz | hz
+    · exact absurd (by rw [← h2]; exact hz) hkp
+    · exact absurd (h3.symm.trans hz) hu
+  · rcases c.recs j with e | ⟨hfree, _⟩
+    · rw [e]; exact hr
+    · rw [hr] at hfree; cases hfree
+
+theorem syncIPs_core (pod : Pod) (hkp : (keyOf pod).pod ≠ "") (hu : pod.uid ≠ 0) : ∀ (ips : List IP) (s : State), Core s →
+    Core (syncIPs s pod ips) ∧ (syncIPs s pod ips).pods = s.pods ∧
+    (∀ j r, Tbl.get s.alloc j = some r → Tbl.get (syncIPs s pod ips).alloc j = some r) := by
+  intro ips
+  induction ips with
+  | nil => intro s h; exact ⟨h, rfl, fun _ _ hr => hr⟩
+  | cons ip t ih =>
+    intro s h
+    unfold syncIPs
+    split
+    · exact ih s h
+    · have c := core_allocateSpecific s (keyOf pod) ip { policy := policyOf pod, node := pod.node, uid := pod.uid } hkp hu h
+      have f := allocateSpecific_fields s (keyOf pod) ip { policy := policyOf pod, node := pod.node, uid := pod.uid }
+      have r := ih (allocateSpecific s (keyOf pod) ip { policy := policyOf pod, node := pod.node, uid := pod.uid }).1 c.1
+      exact ⟨r.1, r.2.1.trans f.2.1, fun j rj hj => r.2.2 j rj (c.2 j rj hj)⟩
+
+theorem syncPods_core : ∀ (l : List Pod) (s : State), (∀ p, p ∈ l → (keyOf p).pod ≠ "" ∧ p.uid ≠ 0) → Core s →
+    Core (syncPods s l) ∧ (syncPods s l).pods = s.pods ∧
+    (∀ j r, Tbl.get s.alloc j = some r → Tbl.get (syncPods s l).alloc j = some r) := by
+  intro l
+  induction l with
+  | nil => intro s _ h; exact ⟨h, rfl, fun _ _ hr => hr⟩
+  | cons p t ih =>
+    intro s hl h
+    unfold syncPods
+    split
+    · have hp := hl p (by simp)
+      have c := syncIPs_core p hp.1 hp.2 p.ips s h
+      have r := ih (syncIPs s p p.ips) (fun q hq => hl q (List.mem_cons_of_mem _ hq)) c.1
+      exact ⟨r.1, r.2.1.trans c.2.1, fun j rj hj => r.2.2 j rj (c.2.2 j rj hj)⟩
+    · exact ih s (fun q hq => hl q (List.mem_cons_of_mem _ hq)) h
+
+/-! ### restart -/
+
+theorem dropAll_prov : ∀ (l : List IP) (s : State), (dropAll s l).provOn = s.provOn := by
+  intro l
+  induction l with
+  | nil => intro s; rfl
+  | cons ip t ih =>
+    intro s
+    unfold dropAll
+    split
+    · exact ih _
+    · exact ih _
+
+/-- a restart over coherent tables without orphaned store objects rebuilds exactly the records there were -/
+theorem restart_same (s : State) (hc : Coherent s) (ho : s.orphans = []) :
+    (∀ j, Tbl.get (restart s).1.alloc j = Tbl.get s.alloc j) ∧ Coherent (restart s).1 ∧
+    (restart s).1.plog = s.plog ∧ (restart s).1.provOn = s.provOn ∧ (restart s).1.pods = s.pods := by
+  unfold restart
+  dsimp only
+  by_cases hok : (configurePool (restartBase s) s.pools).2 = true
+  · have rc := configurePool_ok' (restartBase s) s.pools hok
+    have hal : ∀ j, Tbl.get (configurePool (restartBase s) s.pools).1.alloc j = Tbl.get s.alloc j := by
+      intro j
+      rw [rc.alloc j]
+      have hl : Tbl.get (listed (restartBase s)) j = Tbl.get s.alloc j := by
+        unfold listed restartBase
+        dsimp only
+        rw [ho, List.append_nil]
+        exact hc.agree j
+      rw [hl]
+      cases hg : Tbl.get s.alloc j with
+      | none => simp
+      | some r => rw [if_pos (hc.allocConf j r hg)]
+    refine ⟨hal, rc.coherent, ?_, ?_, rc.pods⟩
+    · unfold configurePool
+      dsimp only
+      split
+      · rfl
+      · exact (dropAll_fields _ _).2.2.2.2.2.2.2
+    · unfold configurePool
+      dsimp only
+      split
+      · rfl
+      · show (dropAll _ _).provOn = s.provOn
+        rw [dropAll_prov]; rfl
+  · have hf : (configurePool (restartBase s) s.pools).2 = false := by simpa using hok
+    rw [configurePool_fail _ _ hf]
+    exact ⟨fun _ => rfl, coherent_of_eq hc rfl rfl rfl rfl, rfl, rfl, rfl⟩
 
 end Galaxy.PluginC10
